@@ -27,6 +27,9 @@ def plan(tier, seed):
         for lo, hi in parts(n, 3):
             conds.append(Cond("p4-mutate-%d-%03d_%03d" % (i, lo, hi), "harness/c02.py", "p4",
                               env={"P4_SCRIPT": i, "P4_LO": lo, "P4_HI": hi}, timeout=600))
+    conds.append(Cond("p5-size", "harness/c02.py", "p5", timeout=600))
+    bounds["P5"] = ("%d script shapes (nested not / blocks / anyof, long list, many commands, unclosed blocks, elsif chain, long comment "
+                    "and string) at sizes %s" % (H.NSH, H.DEPTHS))
     conds.append(Cond("p3-vacuity", "harness/c02.py", "p3", timeout=60, vacuity=True))
     conds += t4_conds("c02", timeout=280 if q else 1500, quick=q)
     bounds["T4"] = T4_BOUND
